@@ -39,6 +39,8 @@ type PackWriter struct {
 	// promisor, when non-nil, writes a .promisor sidecar next to the pack
 	// carrying these contents. A nil value leaves the pack unmarked.
 	promisor *string
+	// saved, when set, is called once the pack is at its permanent location.
+	saved func()
 }
 
 func newPackWrite(fs billy.Filesystem, format formatcfg.ObjectFormat, writeRev bool) (*PackWriter, error) {
@@ -133,7 +135,15 @@ func (w *PackWriter) Close() error {
 		return w.clean()
 	}
 
-	return w.save()
+	if err := w.save(); err != nil {
+		return err
+	}
+
+	if w.saved != nil {
+		w.saved()
+	}
+
+	return nil
 }
 
 func (w *PackWriter) clean() error {
